@@ -262,6 +262,17 @@ pub fn run(ctx: Arc<Ctx>) {
 			check_opened(ctxr, &rt, Cont::Tar, &format!("tar {l:?} over {name}"), &w, &tiles, true, json!({"cont": "tar", "layout": l, "set": name}));
 			ct::cleanup(&w);
 			ctxr.nontrivial(fnv_str(&format!("tar{l:?}{name}")));
+			// archives of a tile directory whose equal tiles are hard links of one inode: tar stores the further
+			// names as link members
+			let payloads: std::collections::BTreeSet<&Vec<u8>> = tiles.values().collect();
+			if !l.meta_last && payloads.len() < tiles.len() {
+				let path = wpath.join(format!("t{i}h.tar"));
+				std::fs::write(&path, codec::tar_write_hard_links(&members, l)).unwrap();
+				let w = Written::Path(path);
+				check_opened(ctxr, &rt, Cont::Tar, &format!("tar {l:?} with hard-link members over {name}"), &w, &tiles, true, json!({"cont": "tar", "layout": l, "set": name, "hard_links": true}));
+				ct::cleanup(&w);
+				ctxr.nontrivial(fnv_str(&format!("tarh{l:?}{name}")));
+			}
 		}
 		// mbtiles (pool threads linger: representative sets only)
 		if is_fam || tiles.len() == 1 && i % 5 == 0 || (i % 97 == 0) {
